@@ -7,6 +7,7 @@ import FlVerif.Gen.TermGen
 import FlVerif.Lemmas.CodeWeighted
 import FlVerif.Lemmas.CodeDiscrete
 import FlVerif.Lemmas.CodeDiscreteHighest
+import FlVerif.Lemmas.CodeWave5X
 
 /-! # C10 — Weighted defuzzifiers compute the grouped weighted average / sum
 
@@ -92,6 +93,58 @@ theorem code_highestActivatedTerm (size_of : X ℚ → Nat) (agg : Option (X ℚ
     | none => Gen.Code.Aggregated_highest_activated_term.run size_of agg acts {} = .error .value
     | some h => ∃ σ, Gen.Code.Aggregated_highest_activated_term.run size_of agg acts {} = .ok σ ∧ σ.ret = some h :=
   Op.Weighted.code_highestActivatedTerm size_of agg acts
+
+/-! ## `WeightedDefuzzifier.infer_type` itself
+
+Until the fifth wave the call `self.infer_type(fuzzy_output)` of the two defuzzifiers was a trusted external
+(`Py.W.inferType`, i.e. the model `Op.Weighted.inferType` by fiat).  `Gen.Code.WeightedDefuzzifier_infer_type` is the
+recursive classmethod regenerated from `defuzzifier.py`; its argument is a tree of components (`Py.W5.Comp`: an
+`Aggregated` term or a `Variable` with its terms, an `Activated` term with the term it wraps, a plain term). -/
+
+/-- **Tie A (code → model).**  `WeightedDefuzzifier.infer_type` on the `Aggregated` term of the weighted model (a list of
+    `Activated` terms over plain terms) raises `TypeError` exactly when `Op.Weighted.inferType` fails (terms of several
+    types) and otherwise returns its type (`Automatic` for no term at all); on a plain term it returns the
+    classification `Op.Weighted.inferTerm` (TakagiSugeno for `Constant` / `Linear` / `Function`, Tsukamoto for a
+    monotonic term, Automatic otherwise).  The bound on the recursion depth is never exhausted. -/
+theorem code_inferType (acts : List (Act String ℚ)) (t : WTerm String ℚ) :
+    (match inferType acts with
+     | .error e => Gen.Code.WeightedDefuzzifier_infer_type.run (Py.W5.ofActs acts) {} = .error (Py.W.errToPy e)
+     | .ok ty => ∃ σ, Gen.Code.WeightedDefuzzifier_infer_type.run (Py.W5.ofActs acts) {} = .ok σ ∧ σ.ret = some ty) ∧
+    (∃ σ, Gen.Code.WeightedDefuzzifier_infer_type.run (.plain t) {} = .ok σ ∧ σ.ret = some (inferTerm t)) :=
+  ⟨Op.Weighted.code_inferType acts, Op.Weighted.code_inferType_plain t⟩
+
+/-- **Tie A (code → model), every component.**  On every tree of components - nested `Aggregated` terms, `Activated`
+    terms of `Activated` terms, variables - the translated function is the recursive model `Op.Weighted.inferComp`
+    (`Lemmas/CodeWave5X.lean`): the type of a plain term, of the wrapped term, or the single element of the set of the
+    types of the terms (`Automatic` for none, `TypeError` for several; a `TypeError` of a part goes through). -/
+theorem code_inferType_tree (c : Py.W5.Comp) :
+    match inferComp c with
+    | .error e => Gen.Code.WeightedDefuzzifier_infer_type.run c {} = .error (Py.W.errToPy e)
+    | .ok ty => ∃ σ, Gen.Code.WeightedDefuzzifier_infer_type.run c {} = .ok σ ∧ σ.ret = some ty :=
+  Op.Weighted.code_inferType_tree c
+
+/-- **The external `Py.W.inferType`** - the call `self.infer_type(fuzzy_output)` inside the translated
+    `WeightedAverage.defuzzify` / `WeightedSum.defuzzify` (`code_weightedAverage`, `code_weightedSum` above) - **is the
+    translated `infer_type`** applied to the fuzzy output as a component: same value, same exception class. -/
+theorem inferType_external_is_code (a : Py.W.Aggregated) :
+    match Py.W.inferType a with
+    | .ok ty => ∃ σ, Gen.Code.WeightedDefuzzifier_infer_type.run (Py.W5.ofActs a.terms) {} = .ok σ ∧ σ.ret = some ty
+    | .error e => Gen.Code.WeightedDefuzzifier_infer_type.run (Py.W5.ofActs a.terms) {} = .error e :=
+  Op.Weighted.inferType_external_is_code a
+
+/-- **The external `Op.Infer.Defuzz.weightedType`** - the call `variable.defuzzifier.infer_type(variable)` inside the
+    translated `Engine.infer_type` (`C01.code_inferType`) - **is the translated `infer_type`** applied to the variable as
+    a component, when the model's output variable carries what the tree model makes of its terms
+    (`weightedOfTerms ts`: the common type, or `none` = `TypeError`). -/
+theorem inferType_engine_external_is_code (ts : List Py.W5.Comp) :
+    match Op.Infer.Defuzz.weightedType (.weighted (weightedOfTerms ts)) with
+    | .ok ty => ∃ σ, Gen.Code.WeightedDefuzzifier_infer_type.run (.group ts) {} = .ok σ ∧ σ.ret = some ty
+    | .error e => Gen.Code.WeightedDefuzzifier_infer_type.run (.group ts) {} = .error e :=
+  Op.Weighted.inferType_engine_external_is_code ts
+
+/-- `infer_type` looks through `Activated`: wrapping a component changes nothing -/
+theorem inferType_activated (c : Py.W5.Comp) : inferComp (.activated c) = inferComp c := by
+  rw [inferComp]
 
 /-! ## grouping -/
 
